@@ -1328,6 +1328,23 @@ func TestC08(t *testing.T) {
 		}
 		groups = append(groups, eg)
 		specs = append(specs, groupSpec{Name: eg.name, Mode: "valid", Names: allNames, MaxEntries: 3, MaxPatterns: 2, Trees: len(eg.trees), Lists: len(eg.lists)})
+		// patterns that match no name of the alphabet but do match the names implementations give their scratch files
+		// (".partial", ".tmp", ".temp", ".bak", ".new", ".orig", ".staging", "~"): every entry is to be processed
+		sg := group{name: "valid/entries<=3/patterns-matching-scratch-suffixes-only", mode: "valid", trees: trees(allNames, 0, 3)}
+		// (only letters that occur in no name of the sandbox either: its paths are made of /dev/shm/verif-c08-<digits>/c, /w0rk,
+		// r00t, d3st, d3st2, 0ut.arc ...)
+		for _, e := range []string{"p", "l", "b", "n", "g", "~", "p|l", "[bn]"} {
+			sg.lists = append(sg.lists, []string{e})
+		}
+		for _, l := range sg.lists {
+			key := strings.Join(l, "\x00")
+			if psetCache[key] == nil {
+				psetCache[key] = newPset(l)
+			}
+			sg.psets = append(sg.psets, psetCache[key])
+		}
+		groups = append(groups, sg)
+		specs = append(specs, groupSpec{Name: sg.name, Mode: "valid", Names: allNames, MaxEntries: 3, MaxPatterns: 1, Trees: len(sg.trees), Lists: len(sg.lists)})
 		// an excluded entry that cannot be stat'ed: a dangling symbolic link named x among ordinary entries (OS backend)
 		lg := group{name: "valid/excluded-dangling-link", mode: "valid", osOnly: true, lists: [][]string{{"x"}, {"x", "y"}, {"[xy]"}}}
 		lg.trees = []tree{
